@@ -62,6 +62,18 @@ def strip_comments(src):
     return "".join(out)
 
 
+def prune_cache(keep=48):
+    """build/cache holds one directory per (tree, tool, tier, seed, flavour) run: keep the most recent ones only (disk)."""
+    import shutil
+    d = os.path.join(BUILD, "cache")
+    try:
+        ents = sorted((os.path.join(d, e) for e in os.listdir(d)), key=os.path.getmtime, reverse=True)
+    except OSError:
+        return
+    for e in ents[keep:]:
+        shutil.rmtree(e, ignore_errors=True)
+
+
 def coq_gate():
     """Reject forbidden vernacular anywhere in the development."""
     bad = []
